@@ -181,6 +181,18 @@ type Transport struct {
 	done   chan struct{}
 	nWrite int
 	hook   func()
+	after  func() // one-shot, runs after the write that completes the next framed packet
+	mark   int    // offset in out at which that packet starts
+}
+
+// AfterNextPacket arms a one-shot hook that runs (on the writer's goroutine, outside the
+// transport's lock) right after the Write call that completes the next framed packet with a body
+// (type byte, 4-byte big-endian body size, body) - e.g. the handshake response, whose last Write
+// is the last thing sendHandshakeResponse does before handleHandshake's registry section.
+func (t *Transport) AfterNextPacket(f func()) {
+	t.mu.Lock()
+	t.after, t.mark = f, t.out.Len()
+	t.mu.Unlock()
 }
 
 // BeforeNextWrite arms a one-shot hook that runs (on the writer's goroutine, outside the
@@ -202,12 +214,26 @@ func (t *Transport) Write(p []byte) (int, error) {
 		h()
 		t.mu.Lock()
 	}
-	defer t.mu.Unlock()
 	if t.closed {
+		t.mu.Unlock()
 		return 0, net.ErrClosed
 	}
 	t.nWrite++
-	return t.out.Write(p)
+	n, err := t.out.Write(p)
+	var fire func()
+	if t.after != nil {
+		if b := t.out.Bytes(); t.mark <= len(b) {
+			b = b[t.mark:]
+			if len(b) >= 5 && len(b) >= 5+int(uint32(b[1])<<24|uint32(b[2])<<16|uint32(b[3])<<8|uint32(b[4])) {
+				fire, t.after = t.after, nil
+			}
+		}
+	}
+	t.mu.Unlock()
+	if fire != nil {
+		fire()
+	}
+	return n, err
 }
 func (t *Transport) Close() error {
 	t.mu.Lock()
@@ -233,6 +259,7 @@ func (t *Transport) take() []byte {
 	defer t.mu.Unlock()
 	b := append([]byte(nil), t.out.Bytes()...)
 	t.out.Reset()
+	t.mark = 0
 	return b
 }
 
@@ -436,6 +463,17 @@ func (s *Server) Kick(clientID int64, newConnID string) {
 // UnregisterForTunnel is ClientRegistry.Unregister: what handleTunnelOpen / handleExistingBridge do
 // to a connection that turns into a data tunnel (registry entry dropped, stream kept open).
 func (s *Server) UnregisterForTunnel(connID string) { s.SM.GetClientRegistry().Unregister(connID) }
+
+// SweepNow runs the registry half of the stale sweep immediately with timeout 0 (every registered
+// control connection counts as stale): ClientRegistry.CleanupStale with the callback
+// cleanupStaleConnections passes for connections without cloud state (SessionManager.CloseConnection).
+// For drivers that need the sweep at a chosen instant; the timed path is the real ticker
+// (Options.HeartbeatTimeout / CleanupInterval).
+func (s *Server) SweepNow() int {
+	return s.SM.GetClientRegistry().CleanupStale(0, func(connID string, clientID int64, authenticated bool) error {
+		return s.SM.CloseConnection(connID)
+	})
+}
 
 // Lookup is SessionManager.GetControlConnectionByClientID.
 func (s *Server) Lookup(clientID int64) *session.ControlConnection {
